@@ -524,9 +524,30 @@ class Tr:
             self.assign(a, ("view", o))
             self.emit(("write", a, s.lineno, "augmented-attribute"))
 
+    SCALAR_TYPES = {"int", "float", "bool", "str", "slice", "complex", "Number", "Integral", "Real"}
+
+    def narrowed(self, test):
+        """variables that `test` proves to be python scalars (isinstance(x, int) [and …]) inside the `if` body"""
+        t = test.values[0] if isinstance(test, ast.BoolOp) and isinstance(test.op, ast.And) else test
+        if isinstance(t, ast.Call) and isinstance(t.func, ast.Name) and t.func.id == "isinstance" and len(t.args) == 2 \
+                and isinstance(t.args[0], ast.Name):
+            ty = t.args[1]
+            tys = ty.elts if isinstance(ty, ast.Tuple) else [ty]
+            names = [ast.unparse(x).split(".")[-1] for x in tys]
+            if all(n in self.SCALAR_TYPES for n in names):
+                return [t.args[0].id]
+        return []
+
     def s_If(self, s):
         self.expr(s.test)
+        saved = {}
+        for nm in self.narrowed(s.test):
+            v = self.var(nm)
+            saved[v] = self.kind.get(v)
+            self.kind[v] = "N"
         a = self.block(s.body)
+        for v, k in saved.items():
+            self.kind[v] = k if k is not None else "U"
         b = self.block(s.orelse)
         self.emit(("if", a, b))
 
